@@ -1113,7 +1113,9 @@ class Engine:
         st.assume(g)
       raise_conds = []
       for exc, cl in c.raises.items():
-        if cl is None:
+        if cl is None and exc in c.raises_only_if:
+          raise_conds.append((exc, ("only_if", self.truthy(st, self.ev(c.raises_only_if[exc].node, st)))))
+        elif cl is None:
           raise_conds.append((exc, None))
         else:
           raise_conds.append((exc, self.truthy(st, self.ev(cl.node, st))))
@@ -1121,6 +1123,16 @@ class Engine:
       st.spec_depth -= 1
       st.frames.pop()
     for exc, cond in raise_conds:
+      if isinstance(cond, tuple) and cond[0] == "only_if":
+        only = cond[1]
+        if isinstance(only, bool) and not only:
+          continue
+        if not isinstance(only, bool) and z3.is_false(z3.simplify(only)):
+          continue
+        if self.choose(st, None):       # may raise - and then the condition held on entry
+          st.assume(only)
+          raise Raised(exc, info=f"from {c.qual}")
+        continue
       if self.choose(st, cond):
         raise Raised(exc, info=f"from {c.qual}")
     # snapshot for old()
@@ -2559,7 +2571,20 @@ class Engine:
         self.emit(st, "raise-allowed", f"{c.qual}/raises-{r.exc}-only-when:{c.raises[r.exc].text}", raise_conds[r.exc],
                   clause=c.raises[r.exc].text, props=c.raises[r.exc].props)
       elif r.exc in c.raises:
-        pass
+        if r.exc in c.raises_only_if and c.raises_only_if[r.exc].serves(self.prop):
+          cl = c.raises_only_if[r.exc]
+          st.spec_depth += 1
+          saved_frames = None
+          try:
+            fr = Frame(dict(entry_env), None, module, fname=c.qual)
+            st.frames.append(fr)
+            try:
+              g0 = self.truthy(st, self.ev(cl.node, st))
+            finally:
+              st.frames.pop()
+          finally:
+            st.spec_depth -= 1
+          self.emit(st, "raise-allowed", f"{c.qual}/raises-{r.exc}-only-if:{cl.text}", g0, clause=cl.text, props=cl.props)
       else:
         self.emit(st, "no-raise", f"{c.qual}/no-unexpected-{r.exc}", False, clause=f"never raises {r.exc}",
                   props=c.total_props if c.total else None, note=r.info)
